@@ -138,6 +138,12 @@ func simpleFetch(ctx context.Context, gs []storage.Graph, cls *semantic.GraphCla
 		if err != nil {
 			return nil, err
 		}
+		if ta, err := p.TimeAnchor(); err == nil {
+			// Graph.Exist takes no lookup options, check the time bounds here.
+			if (lo.LowerAnchor != nil && ta.Before(*lo.LowerAnchor)) || (lo.UpperAnchor != nil && ta.After(*lo.UpperAnchor)) {
+				return tbl, nil
+			}
+		}
 		for _, g := range gs {
 			gID := g.ID(ctx)
 			tracer.V(2).Trace(w, func() *tracer.Arguments {
